@@ -556,7 +556,41 @@ def covariate_columns_case(ctx, rng, idx):
             return
 
 
+def default_size_case(ctx, rng, idx):
+    """sample(parameters) without a sample size is ONE draw from the same
+    stream: equal to n_samples=1 with the same seed, shape (1, n_dim)"""
+    n_ids = int(rng.integers(1, 4))
+    leaves = GP.random_composition(rng, n_ids, max_parts=3, max_dim=2,
+                                   kinds='GLTPH', p_cov=0.3,
+                                   cov_kinds='GLTP')
+    force = len(leaves) > 1 or bool(rng.integers(2))
+    model = GP.build_chi(leaves, n_ids, force_composed=force)
+    if rng.random() < 0.3:
+        model = chi.ReducedPopulationModel(model)
+    top = np.concatenate([GP.leaf_top(rng, l, n_ids) for l in leaves])
+    h = Hierarchy(leaves, n_ids)
+    kw = {}
+    if h.n_cov:
+        kw['covariates'] = rng.uniform(-1, 1, size=(1, h.n_cov))
+    seed = int(rng.integers(0, 1000))
+    codes = [GP.leaf_code(l) for l in leaves]
+    feats = {'family': 'default_size', 'leaves': codes}
+    ctx.case(('default_size', '+'.join(codes)), True, sample=feats)
+    try:
+        a = np.asarray(model.sample(top, seed=seed, **kw), dtype=float)
+        b = np.asarray(model.sample(top, n_samples=1, seed=seed, **kw),
+                       dtype=float)
+    except Exception as e:      # noqa
+        ctx.violation_exc('sample_raises', e, {'case': feats}, feats)
+        return
+    ctx.count('default_size_samples')
+    if a.shape != (1, h.n_dim) or not np.array_equal(a, b, equal_nan=True):
+        ctx.violation('default_sample_size_is_one', 'default_sample_size',
+                      {'default': a, 'n_samples=1': b}, feats)
+
+
 FAMILIES = [
+    Family('default_size', default_size_case, quick=60, thorough=600),
     Family('covariate_columns', covariate_columns_case, quick=60,
            thorough=600),
     Family('error_model', error_model_case, quick=64, thorough=480),
